@@ -73,6 +73,42 @@ pub fn encode_const(hrp: &str, payload: &[u8], cst: u32) -> String {
     out
 }
 
+/// bech32 string over raw 5-bit groups (valid checksum whatever the groups are)
+pub fn encode_groups(hrp: &str, groups: &[u8]) -> String {
+    let mut values = hrp_expand(hrp);
+    values.extend(groups.iter().map(|g| g & 31));
+    values.extend([0u8; 6]);
+    let pm = polymod(&values) ^ BECH32_CONST;
+    let mut out = String::with_capacity(hrp.len() + 7 + groups.len());
+    out.push_str(hrp);
+    out.push('1');
+    for d in groups {
+        out.push(CHARSET[(*d & 31) as usize] as char);
+    }
+    for i in 0..6 {
+        out.push(CHARSET[((pm >> (5 * (5 - i))) & 31) as usize] as char);
+    }
+    out
+}
+
+/// Checksum-valid strings under `hrp` that are not the encoding of a byte string, or of an unusual one:
+/// no data at all, one group, an incomplete trailing group, non-zero padding bits on 20- and 32-byte
+/// look-alikes, a 300-byte payload. The chain's own address validation refuses all of them; a contract
+/// must answer them with an error (or accept them), never abort.
+pub fn odd_strings(hrp: &str) -> Vec<String> {
+    let mut v = vec![encode_groups(hrp, &[]), encode_groups(hrp, &[1]), encode_groups(hrp, &[31, 31, 31])];
+    // 33 groups = 165 bits: 20 bytes + 5 stray bits
+    v.push(encode_groups(hrp, &[21u8; 33]));
+    // 32 groups encode 20 bytes exactly; 52 groups encode 32 bytes + 4 padding bits: make the padding non-zero
+    let mut g = convert_bits(&[0xabu8; 32], 8, 5, true).unwrap();
+    *g.last_mut().unwrap() |= 0x0f;
+    v.push(encode_groups(hrp, &g));
+    // 7 groups = 35 bits: 4 bytes + 3 non-zero padding bits
+    v.push(encode_groups(hrp, &[3, 1, 4, 1, 5, 9, 7]));
+    v.push(encode(hrp, &[0x5au8; 300]));
+    v
+}
+
 /// bech32 (not bech32m) encoding of `payload` under `hrp`
 pub fn encode(hrp: &str, payload: &[u8]) -> String {
     encode_const(hrp, payload, BECH32_CONST)
@@ -152,6 +188,19 @@ pub fn hook_sender(channel: &str, original_sender: &str, prefix: &str) -> String
 }
 
 pub fn self_test() -> Result<(), String> {
+    for o in odd_strings("osmo") {
+        // checksum-valid for the lenient reading (the `bech32` crate's decode), refused by the strict one
+        let lower = o.to_ascii_lowercase();
+        let pos = lower.rfind('1').ok_or("odd string without separator")?;
+        let mut values = hrp_expand(&lower[..pos]);
+        for c in lower[pos + 1..].bytes() {
+            values.push(CHARSET.iter().position(|x| *x == c).ok_or("odd string charset")? as u8);
+        }
+        if polymod(&values) != BECH32_CONST {
+            return Err(format!("odd string {o} has no valid checksum"));
+        }
+    }
+
     // BIP-173 valid vectors
     for v in [
         "A12UEL5L",
